@@ -30,21 +30,21 @@ TRUSTED = [
     'correspondence is differential testing: model = code only on the hierarchies and programs executed',
 ]
 ASSUMPTIONS = [
-    'Parameter names and method names are disjoint; methods log; an on_init method may assign one parameter on its first invocation (i.e. during construction; no queued watchers in those cases); watch=True methods may assign parameters at every invocation (constant values, only parameters of higher index than every dependency of the method, so cascades end; watch="queued" methods and decorated functions only log; method bodies neither batch nor raise); Number parameters holding integers',
+    'classes that are not Parameterized (plain mix-ins) declare no Parameters and only undecorated methods; Parameter names and method names are disjoint; methods log; an on_init method may assign one parameter on its first invocation (i.e. during construction; no queued watchers in those cases); watch=True methods may assign parameters at every invocation (constant values, only parameters of higher index than every dependency of the method, so cascades end; watch="queued" methods and decorated functions only log; method bodies neither batch nor raise); Number parameters holding integers',
     'Parameter attributes exercised: bounds (only the upper bound varies, never rejecting a value) and step',
     'dotted (sub-object) dependencies are C07; async / generator methods, class-level assignment and param.trigger are outside',
     'function form: all Parameter objects belong to the one instance',
 ]
 RULE = ('directed prefix (single/multiple inheritance overrides: decorated, undecorated, watch=False, different dependency '
         'sets, method-name dependencies, value+slot dependencies, on_init, function form, unresolvable and cyclic specs) + random '
-        'hierarchies of 1-5 classes (chains, diamonds, random bases with a consistent MRO), 2-4 Parameters, 1-3 methods with '
+        'hierarchies of 1-5 classes (chains, diamonds, random bases with a consistent MRO, plain non-Parameterized mix-ins among the roots), 2-4 Parameters, 1-3 methods with '
         'random dependency sets over visible parameters / p:bounds / p:step / other methods; in 3 of 10 cases instead one or two '
         'classes whose watch=True methods assign 1-3 parameters; then 3-8 operations (assignment, slot assignment, param.update, '
         'batch_call_watchers blocks nested up to depth 3).  Compared with the model: the class table, method_dependencies of every '
         'method, the constructor log, the log and the trace tree (assignments with old/new value and batching flag, invocations, '
         'blocks) of every operation.  non-trivial = at least '
         'one method was invoked by an operation and the oracle judged >=1 step; distinct = distinct canonical case')
-COVERAGE_TARGETS = ['op:nested-batch', 'method:assigning', 'cascade:nested-call', 'init:assigning-on_init', 'table:inherited-entry', 'table:own-entry', 'method:not-watched', 'install:several-groups',
+COVERAGE_TARGETS = ['shape:plain-mixin', 'op:nested-batch', 'method:assigning', 'cascade:nested-call', 'init:assigning-on_init', 'table:inherited-entry', 'table:own-entry', 'method:not-watched', 'install:several-groups',
                     'install:one-group', 'install:on_init', 'install:function-form', 'op:set', 'op:setslot', 'op:update',
                     'op:batch', 'dispatch-model:agrees', 'create:AttributeError', 'create:RecursionError',
                     'shape:diamond', 'shape:chain', 'override:undecorated', 'override:decorated', 'override:watch-false']
@@ -151,7 +151,13 @@ def run_impl(case):
                     f = param.depends(*[_spec_str(a, w) for a, w in di['specs']],
                                       watch=('queued' if di['queued'] else di['watch']), on_init=di['on_init'])(f)
                 ns[m['name']] = f
-            bases = tuple(K[b] for b in d['bases']) or (param.Parameterized,)
+            if d.get('plain'):
+                # a class that is not a Parameterized (a mix-in): undecorated methods only, no Parameters
+                bases = tuple(K[b] for b in d['bases']) or (object,)
+            else:
+                bases = tuple(K[b] for b in d['bases'])
+                if not any(issubclass(b, param.Parameterized) for b in bases):
+                    bases = bases + (param.Parameterized,)
             try:
                 K.append(type(f'K{i}', bases, ns))
             except (AttributeError, RecursionError) as e:
@@ -318,11 +324,22 @@ def _gen_case(rng):
     mros = _mro_of(bases_list)
     pnames = ['p0', 'p1', 'p2', 'p3'][:rng.randint(2, 4)]
     mnames = ['m0', 'm1', 'm2'][:rng.randint(1, 3)]
+    # some of the root classes (never the last one) are plain mix-ins: not Parameterized, no Parameters, undecorated
+    # methods only; a class all of whose ancestors are plain is a Parameterized of its own
+    plain = set()
+    if n >= 2 and rng.random() < 0.3:
+        plain = {i for i in range(n - 1) if not bases_list[i] and rng.random() < 0.6}
     classes = []
     for i in range(n):
         d = {'bases': bases_list[i], 'mro': mros[i], 'params': [], 'methods': []}
         classes.append(d)
-        roots = not bases_list[i]
+        if i in plain:
+            d['plain'] = True
+            for m in mnames:
+                if rng.random() < 0.4:
+                    d['methods'].append({'name': m, 'dinfo': None})
+            continue
+        roots = all(b in plain for b in mros[i][1:])
         for p in pnames:
             if rng.random() < (0.8 if roots else 0.2):
                 d['params'].append(p)
@@ -344,7 +361,7 @@ def _gen_case(rng):
             r = rng.random()
             d['methods'].append({'name': m, 'dinfo': {'specs': specs, 'watch': r < 0.85, 'queued': r < 0.1,
                                                       'on_init': rng.random() < 0.25}})
-    inst = n - 1 if rng.random() < 0.6 else rng.randrange(n)
+    inst = n - 1 if rng.random() < 0.6 else rng.choice([i for i in range(n) if i not in plain])
     case = _finish(classes, inst, [], [])
     ps = sorted({p for p, _, _ in case['init']})
     fns = []
@@ -448,6 +465,16 @@ def _directed():
     yield _finish([R, _cls([0], [1, 0], [], [])], 1, [], list(RP), None, [['m0', 0, [['p1', 1], ['p2', 1]]]])
     yield _finish([R, _cls([0], [1, 0], [], [_dm('m0', ['p0', 'p1'])])], 1, [], list(RP), None,
                   [['m0', 0, [['p1', 1], ['p2', 1]]], ['m0', 1, [['p2', 3], ['p3', 3]]]])
+    # a plain (non-Parameterized) mix-in in front of / behind the Parameterized base: the inherited registrations stay;
+    # an undecorated method of the mix-in that comes first in the MRO removes the registration
+    MX = dict(_cls([], [0], [], []), plain=True)
+    MXm = dict(_cls([], [0], [], [_um('m0')]), plain=True)
+    A1 = _cls([], [1], ['p0', 'p1'], [_dm('m0', ['p0']), _dm('m1', ['m0', 'p1']), _dm('m2', ['p0:bounds'])])
+    yield _finish([MX, A1, _cls([0, 1], [2, 0, 1], [], [])], 2, [], list(_PROG))
+    yield _finish([MX, A1, _cls([1, 0], [2, 1, 0], [], [_dm('m2', ['p1'])])], 2, [], list(_PROG))
+    yield _finish([MXm, A1, _cls([0, 1], [2, 0, 1], [], [])], 2, [], list(_PROG))
+    yield _finish([MXm, A1, _cls([1, 0], [2, 1, 0], [], [])], 2, [], list(_PROG))
+    yield _finish([MX, _cls([0], [1, 0], ['p0', 'p1'], [_dm('m0', ['p0', 'p1'])]), _cls([1], [2, 1, 0], [], [])], 2, [], list(_PROG))
     # class statements that raise
     yield _finish([_cls([], [0], ['p0'], [_dm('m0', ['zz'], watch=False)])], 0, [], [])
     yield _finish([_cls([], [0], ['p0'], [_dm('m0', ['m1']), _dm('m1', ['m0'])])], 0, [], [])
@@ -480,6 +507,9 @@ def _definer(case, c, name):
 def tags(case, impl):
     t = [f'classes={len(case["classes"])}', f'ops={min(len(case["ops"]), 8)}']
     multi = any(len(d['bases']) > 1 for d in case['classes'])
+    c0 = case['inst']
+    if any(case['classes'][k].get('plain') for k in case['classes'][c0]['mro']):
+        t.append('shape:plain-mixin')
     t.append('shape:diamond' if multi else 'shape:chain')
     c = case['inst']
     seen = set()
